@@ -143,6 +143,8 @@ class Gen:
         out = []
         for s in self.w.graph_slots():
             sl = self.w.slots[s]
+            if sl.data.get("reserved"):
+                continue   # planted by a transaction that keeps it to itself
             if kinds and sl.model.kind not in kinds:
                 continue
             if unlocked and sl.locks:
@@ -1175,12 +1177,12 @@ class Gen:
             rng.shuffle(bonds)
             s = self.slot_id()
             slots.append(s)
-            yield dict(k="spec", dst=s, cls=kind, atoms=atoms, bonds=bonds, astereo=descs)
+            yield dict(k="spec", dst=s, cls=kind, atoms=atoms, bonds=bonds, astereo=descs, reserved=True)
         a, b = slots
         if self.w.graph(a) is None or self.w.graph(b) is None:
             return
         yield dict(k="probe_pair", s1=a, s2=b)
-        yield dict(k="probe_twin", s=a, seed=rng.randrange(2 ** 31), route="fresh")
+        yield dict(k="probe_twin", s=a, seed=rng.randrange(2 ** 31), route=rng.choice(("fresh", "relabel")))
         for s in slots:
             if s in self.w.slots and not self.w.slots[s].locks:
                 yield dict(k="drop", s=s)
